@@ -36,13 +36,24 @@ def parseReader (s : String) : Option ReaderCfg :=
   | _ => none
 
 /-- `<inst>,<inst>…[+cb][+to]` : instruments, flag "an observable instrument with a callback exists", flag "the
-periodic reader has a short timeout" (no effect on the model) -/
-def parseInsts (s : String) : Option (List InstCfg × Bool) :=
+periodic reader has a short timeout" (no effect on the model);
+`<inst>[#k]`: `#k` = the instrument is created with the NAME of instrument `k` (same meter) -/
+def parseInstN (s : String) : Option (InstCfg × Option Nat) :=
+  match s.splitOn "#" with
+  | [i] => do pure (← parseInst i, none)
+  | [i, k] => do pure (← parseInst i, some (← parseNat k))
+  | _ => none
+
+def parseInstsN (s : String) : Option (List InstCfg × List Nat × Bool) :=
   match s.splitOn "+" with
   | is :: flags => do
-    let l ← (is.splitOn ",").mapM parseInst
-    if flags.all (fun f => f == "cb" || f == "to") then pure (l, flags.contains "cb") else none
+    let l ← (is.splitOn ",").mapM parseInstN
+    let names := (List.range l.length).map fun j => match l[j]? with | some (_, some k) => k | _ => j
+    if flags.all (fun f => f == "cb" || f == "to") then pure (l.map (·.1), names, flags.contains "cb") else none
   | [] => none
+
+def parseInsts (s : String) : Option (List InstCfg × Bool) :=
+  (parseInstsN s).map fun r => (r.1, r.2.2)
 
 def parseOp : List String → Option Op
   | ["add", j, a, v] => do pure (.add (← parseNat j) (← parseNat a) (← parseInt v))
@@ -317,8 +328,10 @@ def stepLine (_ : Unit) (toks : List String) : Unit × Option Verdict :=
   | "seq" :: _ :: rstr :: istr :: rest =>
     let r : Option Verdict := do
       let rs ← (rstr.splitOn ",").mapM parseReader
-      let (is, hasCb) ← parseInsts istr
-      let ops ← (splitBar rest).mapM parseOp
+      let (is, names, hasCb) ← parseInstsN istr
+      let rawOps ← (splitBar rest).mapM parseOp
+      -- instrument objects created again with the same identity share the owner's stream (Sys.lean, `ownerOf`)
+      let ops := rawOps.map (Op.resolve is names)
       let model := (Sys.run rs is ops hasCb).recs
       let mstr := model.map renderRec
       match obs.mapM parseRec with
@@ -339,7 +352,9 @@ def stepLine (_ : Unit) (toks : List String) : Unit × Option Verdict :=
           tagIf (errRec && shut) "collect-after-shutdown" ++ tagIf shut "shutdown" ++ tagIf flush "flush" ++ tagIf multi "multi-attr" ++
           tagIf (rs.length > 1) "multi-reader" ++ tagIf midCancel "cancel-during-aggregation" ++
           tagIf (preCancel && hasCb && errRec) "abandoned-before-aggregation" ++ tagIf (preCancel && !hasCb) "cancelled-ctx-ignored" ++
-          tagIf rejecting "absent-stream"
+          tagIf rejecting "absent-stream" ++
+          tagIf ((List.range is.length).any fun j => names.getD j j != j && ownerOf is names j == j) "same-name-different-stream" ++
+          tagIf ((List.range is.length).any fun j => ownerOf is names j != j) "identical-recreation"
         pure { agree := mstr == obs, spec := if spec then "ok" else "FAIL",
                nontrivial := model.any (fun rc => !rc.streams.isEmpty),
                branches := if tags.isEmpty then "-" else ",".intercalate tags,
